@@ -81,21 +81,27 @@ for pid in sorted(props):
         out.append("**Seeded changes** (fresh sub-agents given only the property text; each compiles, passes the test suite and has a demonstration):")
         for d in seeds:
             n = os.path.basename(d)
-            title = ""
+            title, indep = "", ""
             try:
-                title = json.load(open(os.path.join(d, "meta.json"))).get("title", "")
+                mj = json.load(open(os.path.join(d, "meta.json")))
+                title = mj.get("title", "")
+                if mj.get("independence"):
+                    indep = " [not blind: the sub-agent looked into /verif, see §9.3]"
             except Exception:
                 pass
             rs = results.get(n, [])
             det = [r for r in rs if r[1].startswith("DETECTED")]
             if det:
-                ob = det[0][2].split(";")[0]
+                obs = [o for o in det[0][2].split(";") if o]
+                ob = obs[0]
                 res = "reported by the check of %s: `%s`" % (det[0][0], ob)
+                if all(o.startswith("bounded-") for o in obs):
+                    res += " (by the bounded stand-in only - not by a proof)"
             elif rs:
                 res = "**missed** (outside what is under contract; see §7 and §9.3)"
             else:
                 res = "not yet run"
-            out.append("* `%s` %s — %s" % (n, title, res))
+            out.append("* `%s` %s%s — %s" % (n, title, indep, res))
         out.append("")
     out.append("")
 
